@@ -15,10 +15,11 @@ R(x) == [k |-> "ref", l |-> x]
 L(v) == [k |-> "lit", v |-> v]
 B(o, a, b) == [k |-> "bin", op |-> o, a |-> a, b |-> b]
 DynLI == [k |-> "dyn", o |-> "l", key |-> R("i")]
+DynLX == [k |-> "dyn", o |-> "l", key |-> B("-", L(1), R("i"))]          \* s['l'][1 - s['i']] : the key is itself an expression
 
 cMenu == {R("a"), R("e.p"), R("l.1")}
    \cup {B("+", R("e.p"), R("e.q")), B("+", R("a"), R("l.0")), B("*", R("e.q"), L(2)), B("-", L(10), R("a"))}
-   \cup {DynLI, B("+", DynLI, R("a")), B("*", DynLI, L(3))}
+   \cup {DynLI, B("+", DynLI, R("a")), B("*", DynLI, L(3)), DynLX, B("+", DynLX, R("e.p"))}
    \cup {[k |-> "tot", c |-> "l"], [k |-> "tot", c |-> "e"]}
    \cup {[k |-> "neg", a |-> R("e.p")], [k |-> "rnd", a |-> R("l.0"), p |-> R("a")]}
 
